@@ -526,6 +526,9 @@ func locSkip(c *Ctx, a *flAgg) {
 				if len(at.Args) == 3 {
 					if k, isC := trailConst(at.Args[2]); isC && !strings.HasSuffix(k, "/") {
 						wrongTable = fmt.Sprintf("the standard-library test compares with GOROOT + %q, which also matches a sibling directory whose name begins the same way", k)
+					} else if isC && k != "/src/" {
+						// what is skipped as "explained by GOROOT" is what updateLocations resolves through GOROOT
+						wrongTable = fmt.Sprintf("files under GOROOT + %q are skipped as explained, but updateLocations only resolves files under GOROOT + \"/src/\": a GOPATH or module cache that lies below the GOROOT directory is never detected", k)
 					}
 				}
 			}
